@@ -5,11 +5,17 @@
 --       `VerifierChannel::new` (`channelParse` of Winter/Model/VerifierChecks.lean) with the parameters the
 --       generic AIR derives from the proof's own context and the description (protocol glue of C01):
 --       `noparse` | `panic` | `err:<stage>` | `ok roots=.. fri=.. rows=.. crow=.. rem=.. layers=.. lvals=.. ood=.. evals=..`
+--   refv <field> <hasher> <q.b.g.x.f.r> <seed> <AirDesc line> <acceptable> <public inputs> <tag> <proof bytes hex>
+--       the EXECUTABLE REFERENCE VERIFIER (`refVerify` of Winter/Model/RefVerifier.lean) on exactly the bytes the
+--       real `verify` was given: `ok` | `parse-err` | `err:<VerifierError kind>` | `panic`.  Modelled for the
+--       64-bit field with Rp64_256 and descriptions without auxiliary segment; `-` otherwise.
+--       <acceptable> = `os:<q.b.g.x.f.r>[,..]` (OptionSet) | `mc:<bits>` (MinConjecturedSecurity)
 -- The mutation families (`flips`, `bytes`, `fields`, `resize`, `reorder`, `remainder`, `partitions`,
 -- `nonces`, `extras`) run the real verifier and are judged by the harness's oracle; the model answers `-`.
 import Winter.Drv.Util
 import Winter.Model.VerifierChecks
 import Winter.Model.Protocol
+import Winter.Model.RefVerifier
 
 namespace Drv.C03
 open Model Model.VerifierChecks
@@ -64,8 +70,34 @@ def summary (c : ParsedChannel) : String :=
   let rows := (c.traceOpenings.map fun o => o.rows.length).sum
   s!"ok roots={c.traceRoots.length} fri={c.friRoots.length} rows={rows} crow={c.constraintOpening.rows.length} rem={c.remainder.length} layers={c.friLayers.length} lvals={dots (c.friLayers.map fun l => (l.rows.map List.length).sum)} ood={c.oodCurrent.length} evals={c.oodEvals.length}"
 
+/-- `q.b.g.x.f.r` -/
+def optsOf (s : String) : Option Serde.ProofOptions :=
+  match (s.splitOn ".").mapM parseNat with
+  | some [q, b, g, x, f, r] => some ⟨q, b, g, x, f, r⟩
+  | _ => none
+
+def acceptableOf (s : String) : Option RefVerifier.Acceptable :=
+  if s.startsWith "os:" then ((((s.drop 3).toString).splitOn ",").mapM optsOf).map .optionSet
+  else if s.startsWith "mc:" then (parseNat ((s.drop 3).toString)).map .minConjectured
+  else none
+
+def pubsOf (s : String) : Option (List Nat) :=
+  if s = "-" then some [] else (s.splitOn ",").mapM parseNat
+
+def handleRefv (f h desc acc pubs bytes : String) : String :=
+  if f ≠ "f64" ∨ h ≠ "rp64_256" then "-"
+  else
+    match RefVerifier.parseDesc desc with
+    | none => "-"
+    | some d =>
+      match acceptableOf acc, pubsOf pubs, unhex bytes with
+      | some a, some ps, some bs => (RefVerifier.refVerify d ps a bs).text
+      | _, _, _ => "bad-op"
+
 def handle (toks : List String) : String :=
   match toks with
+  | ["refv", f, h, _opts, _seed, desc, acc, pubs, _tag, bytes] => handleRefv f h desc acc pubs bytes
+  | "refv" :: _ => "bad-op"
   | ["chan", f, h, desc, bytes] =>
     match fieldOf f, digestOf h, dimsOf desc, unhex bytes with
     | some F, some dg, some dims, some bs =>
